@@ -12,6 +12,9 @@ import (
 
 func (c *conn) sendLoop(ctx async.Context) status.Status {
 	for {
+		// Arm the wait channel before polling, see channel.Receive.
+		wait := c.writeq.ReadWait()
+
 		// Write pending messages
 		b, ok, st := c.writeq.Read()
 		switch {
@@ -33,7 +36,7 @@ func (c *conn) sendLoop(ctx async.Context) status.Status {
 		select {
 		case <-ctx.Wait():
 			return ctx.Status()
-		case <-c.writeq.ReadWait():
+		case <-wait:
 		}
 	}
 }
